@@ -235,6 +235,11 @@ func (c *Ctx) runJob(j Job) {
 	}
 	c.mu.Unlock()
 
+	if os.Getenv("GV_DUMP") != "" {
+		for _, o := range outs {
+			fmt.Fprintf(os.Stderr, "  DUMP %s | %-8s %-6s expect %-5s | %s | %s | %s\n", j.Name, o.Ob.Kind, o.Status, o.Ob.Expect, o.Ob.Rec.Msg, o.Ob.Rec.Pos, o.Ob.Rec.Stack)
+		}
+	}
 	coverReplays := 0
 	for _, o := range outs {
 		s := ObSample{Job: j.Name, Name: o.Ob.Name, Kind: o.Ob.Kind, What: o.Ob.Rec.Msg, Pos: o.Ob.Rec.Pos, Expect: o.Ob.Expect, Status: o.Status, Solver: o.Res.Solver, Seconds: round3(o.Res.Seconds), Bounds: j.Bounds}
